@@ -375,7 +375,12 @@ class NetworkXPropertyGraph(ABCPropertyGraph, NetworkXMixin):
         graph_string = None
         if graph is not None:
             if format == GraphFormat.GRAPHML:
-                graph_string = '\n'.join(nx.generate_graphml(graph))
+                # nx.generate_graphml() hands the document out line by line, which also splits at (and so loses) a
+                # carriage return inside a property value; take the document whole and write that character as a
+                # reference, a literal one is turned into a line feed by every XML parser
+                writer = nx.readwrite.graphml.GraphMLWriter(encoding='utf-8', prettyprint=True)
+                writer.add_graph_element(graph)
+                graph_string = str(writer).replace('\r', '&#13;')
                 graph_string = GraphML.networkx_to_neo4j(graph_string)
             elif format == GraphFormat.JSON_NODELINK:
                 json_object = nx.readwrite.node_link_data(graph)
